@@ -87,7 +87,7 @@ Binom(x, q) == IF q = 0 THEN 1 ELSE (Binom(x, q - 1) * (x - q + 1)) \div q   \* 
 DBinom0(q) == IF q = 0 THEN RZero ELSE RNorm(IF q % 2 = 1 THEN 1 ELSE 0 - 1, q)  \* B_q'(0) = (-1)^(q-1)/q
 
 Apply(row, n, F(_)) == \* sum_j row[j] * F(j) over the n samples
-    RSumSeq([jj \in 1 .. n |-> RMul(row[jj - 1], RInt(F(jj - 1)))])
+    RSumSeq([jj \in 1 .. n |-> IF row[jj - 1] = RZero THEN RZero ELSE RMul(row[jj - 1], RInt(F(jj - 1)))])   \* F only where the weight is non-zero (keeps integers small)
 
 (* one-sided mode: exact on every polynomial of degree <= p, at every point *)
 ExactOnPolynomials ==
